@@ -460,6 +460,7 @@ def run_case(case, ctx):
     saw_regen_then_normal = False
     saw_normal_fail_existing = False
     regen_files = set()
+    objects = {}
     for n, s in enumerate(case['steps']):
         op = s['op']
         tag = 'step %d %s' % (n, op)
@@ -533,11 +534,27 @@ def run_case(case, ctx):
         selected = model_should(table, kind)
         existed = os.path.exists(ref_path)
         before = snapshot(refdir)
-        rec = Recorder()
-        rt = ReferenceTest(rec)
-        rt.files.tmp_dir = tmpdir
-        rt.pandas.tmp_dir = tmpdir
-        rt.files.verbose = rt.pandas.verbose = False
+        if len(case['steps']) % 3 != 0:
+            # two long-lived test objects (as two test classes in one run):
+            # assertions that regenerate go through one, the others through
+            # the other; what an object has seen of a reference earlier
+            # must not outlive the reference being rewritten by another
+            who = 'B' if selected else 'A'
+            if who not in objects:
+                rec_ = Recorder()
+                rt_ = ReferenceTest(rec_)
+                rt_.files.tmp_dir = tmpdir
+                rt_.pandas.tmp_dir = tmpdir
+                rt_.files.verbose = rt_.pandas.verbose = False
+                objects[who] = (rec_, rt_)
+            (rec, rt) = objects[who]
+            rec.calls = []
+        else:
+            rec = Recorder()
+            rt = ReferenceTest(rec)
+            rt.files.tmp_dir = tmpdir
+            rt.pandas.tmp_dir = tmpdir
+            rt.files.verbose = rt.pandas.verbose = False
         ok, r = do_assert(rt, what, value, ref_path, kind, actdir, n, strip)
         if selected:
             pin_mtime(ref_path)
